@@ -40,6 +40,8 @@ ASSUMPTIONS = ['computechi2: "full rank" is decided exactly (rational arithmetic
                'computechi2 residual ladder: chi2 allowance 1e-9*chi2 + 2*sqrt(N*chi2)*d + N*d^2 with d = 8*eps*cond(A sqrt(W))*max|b sqrt(w)| '
                '(the accuracy of a direct sum of squared residuals)',
                'HMF seed histories: the harness pins the global numpy RNG before each scenario, so "other use of the RNG" is deterministic',
+               'lazy attributes: computechi2 is read in 4 orders on every system (all 720 orders on 6 systems), pcomp in all 24 orders on small '
+               'data; values are copied when read, compared with the oracle, and must be unchanged on a second read',
                'pcomp: all tolerances are relative to the largest eigenvalue of the reference matrix (unit independent); eigenvalues must scale '
                'with the square of a unit factor in covariance mode and not at all in correlation/standardised mode',
                'pcomp: columns with zero variance are skipped when a correlation matrix or standardisation is requested; with standardize=True '
@@ -108,6 +110,37 @@ def chi2_arrays(case):
     return case['A']
 
 
+CHI2_ATTRS = ('acoeff', 'yfit', 'chi2', 'dof', 'covar', 'var')
+CHI2_EXTRA_ORDERS = (('covar-first', ('covar', 'acoeff', 'yfit', 'chi2', 'dof', 'var')),
+                     ('var-first', ('var', 'chi2', 'yfit', 'acoeff', 'dof', 'covar')),
+                     ('reversed', tuple(reversed(CHI2_ATTRS))))
+
+
+def read_attrs(make, order):
+    """Fresh object; read the lazy attributes in `order` (values copied at the moment of reading), then read them all again."""
+    c = make()
+    got = {}
+    for nm in order:
+        got[nm] = np.array(getattr(c, nm), copy=True)
+    again = {nm: np.array(getattr(c, nm), copy=True) for nm in order}
+    return got, again
+
+
+def chi2_orders(make, compare, trig, orders, first_done=None):
+    """compare(got) -> [(attr, msg)]. The canonical order reports plain signatures; other orders carry the order as trigger,
+    and every attribute must read the same the second time."""
+    bad = []
+    for oname, order in orders:
+        got, again = read_attrs(make, order)
+        suffix = '' if oname == 'canonical' else ':read-order=' + oname
+        for attr, msg in compare(got):
+            bad.append(('computechi2:%s%s%s' % (attr, trig, suffix), msg))
+        for nm in order:
+            if not (got[nm].shape == again[nm].shape and np.array_equal(got[nm], again[nm], equal_nan=True)):
+                bad.append(('computechi2:%s%s:changes-on-second-read' % (nm, trig), 'order %s: first %s then %s' % (list(order), got[nm].tolist(), again[nm].tolist())))
+    return bad
+
+
 def check_chi2(case):
     from pydl.pydlutils.math import computechi2
     A = chi2_arrays(case)
@@ -124,23 +157,30 @@ def check_chi2(case):
         Aarr = Aarr[:, 0].copy()
     sarr = np.array([float(v) for v in s])
     barr = np.array(b)
-    bad = []
+    def make():
+        return computechi2(barr.copy(), sarr.copy(), Aarr.copy())
+
+    def compare(got):
+        out = []
+        for name in ('acoeff', 'yfit', 'chi2', 'covar', 'var'):
+            g = np.asarray(got[name], dtype=float)
+            e = np.asarray(ref[name], dtype=float)
+            if name == 'chi2':
+                ok = g.shape == () and abs(float(g) - float(e)) <= 1e-9 * (1.0 + abs(float(e)) + float(np.sum((sarr * barr) ** 2)))
+            else:
+                ok = _close(g, e, 1e-9)
+            if not ok:
+                out.append((name, 'got %s expected %s' % (np.asarray(g).tolist(), np.asarray(e).tolist())))
+        if np.shape(got['dof']) != () or int(got['dof']) != ref['dof']:
+            out.append(('dof', 'got %r expected %r' % (got['dof'], ref['dof'])))
+        return out
+    orders = (('canonical', CHI2_ATTRS),) + CHI2_EXTRA_ORDERS
+    if case.get('orders') == 'all':
+        orders = tuple(('canonical' if o == CHI2_ATTRS else o[0] + '-first', o) for o in itertools.permutations(CHI2_ATTRS))
     try:
-        c = computechi2(barr, sarr, Aarr)
-        got = {'acoeff': c.acoeff, 'yfit': c.yfit, 'chi2': c.chi2, 'dof': c.dof, 'covar': c.covar, 'var': c.var}
+        bad = chi2_orders(make, compare, trig, orders)
     except Exception as e:
         return [('computechi2:exception:%s%s' % (type(e).__name__, trig), repr(e))], 'exc'
-    for name in ('acoeff', 'yfit', 'chi2', 'covar', 'var'):
-        g = np.asarray(got[name], dtype=float)
-        e = np.asarray(ref[name], dtype=float)
-        if name == 'chi2':
-            ok = g.shape == () and abs(float(g) - float(e)) <= 1e-9 * (1.0 + abs(float(e)) + float(np.sum((sarr * barr) ** 2)))
-        else:
-            ok = _close(g, e, 1e-9)
-        if not ok:
-            bad.append(('computechi2:%s%s' % (name, trig), 'got %s expected %s' % (np.asarray(g).tolist(), np.asarray(e).tolist())))
-    if int(got['dof']) != ref['dof']:
-        bad.append(('computechi2:dof' + trig, 'got %r expected %r' % (got['dof'], ref['dof'])))
     ngood = sum(1 for v in s if v > 0)
     label = 'ok:chi2:m%d:%s:%s' % (m, 'over' if ngood > m else 'exact', 'zw' if ngood < n else ('w' if any(v != 1 for v in s) else 'unit'))
     return bad, label
@@ -192,27 +232,36 @@ def check_chi2_ladder(case):
     if ref is None:
         return None, 'skip:rank-deficient'
     trig = ':cond(AtWA)>=1e%d' % min(decade, 11) if decade >= 6 else ''
-    try:
-        c = computechi2(b.copy(), s.copy(), A.copy())
-        got = {'acoeff': c.acoeff, 'yfit': c.yfit, 'chi2': c.chi2, 'dof': c.dof, 'covar': c.covar, 'var': c.var}
-    except Exception as e:
-        return [('computechi2:exception:%s%s' % (type(e).__name__, trig), repr(e))], 'exc'
     tol = 1e-9 * max(1.0, condA)
-    bad = []
     scales = {'acoeff': float(np.abs(ref['acoeff']).max()), 'yfit': float(np.abs(ref['yfit']).max() + np.abs(b).max()),
               'chi2': float(abs(ref['chi2']) + np.sum((s * b) ** 2)), 'covar': float(np.abs(ref['covar']).max()),
               'var': float(np.abs(ref['var']).max())}
     worst = 0.0
-    for name in ('acoeff', 'yfit', 'chi2', 'covar', 'var'):
-        g = np.asarray(got[name], dtype=float)
-        e = np.asarray(ref[name], dtype=float)
-        err = float(np.abs(g - e).max()) if g.shape == e.shape and np.all(np.isfinite(g)) else float('inf')
-        worst = max(worst, err / (tol * scales[name] + 1e-300))
-        if not err <= tol * scales[name] + 1e-300:
-            bad.append(('computechi2:%s%s' % (name, trig), 'cond(AtWA) %.3g: max error %.3g (allowed %.3g); got %s expected %s'
-                        % (condA * condA, err, tol * scales[name], np.asarray(g).ravel()[:4].tolist(), np.asarray(e).ravel()[:4].tolist())))
-    if int(got['dof']) != ref['dof']:
-        bad.append(('computechi2:dof' + trig, 'got %r expected %r' % (got['dof'], ref['dof'])))
+
+    def make():
+        return computechi2(b.copy(), s.copy(), A.copy())
+
+    def compare(got):
+        nonlocal worst
+        out = []
+        for name in ('acoeff', 'yfit', 'chi2', 'covar', 'var'):
+            g = np.asarray(got[name], dtype=float)
+            e = np.asarray(ref[name], dtype=float)
+            err = float(np.abs(g - e).max()) if g.shape == e.shape and np.all(np.isfinite(g)) else float('inf')
+            worst = max(worst, err / (tol * scales[name] + 1e-300))
+            if not err <= tol * scales[name] + 1e-300:
+                out.append((name, 'cond(AtWA) %.3g: max error %.3g (allowed %.3g); got %s expected %s'
+                            % (condA * condA, err, tol * scales[name], np.asarray(g).ravel()[:4].tolist(), np.asarray(e).ravel()[:4].tolist())))
+        if np.shape(got['dof']) != () or int(got['dof']) != ref['dof']:
+            out.append(('dof', 'got %r expected %r' % (got['dof'], ref['dof'])))
+        return out
+    try:
+        orders = (('canonical', CHI2_ATTRS),) + CHI2_EXTRA_ORDERS
+        if case.get('orders') == 'all':
+            orders = tuple(('canonical' if o == CHI2_ATTRS else o[0] + '-first', o) for o in itertools.permutations(CHI2_ATTRS))
+        bad = chi2_orders(make, compare, trig, orders)
+    except Exception as e:
+        return [('computechi2:exception:%s%s' % (type(e).__name__, trig), repr(e))], 'exc'
     _LADDER_DEBUG['worst'] = worst          # calibration aid (ratio error/allowance); not part of the verdict
     return bad, 'ok:chi2:ladder:deg%d:cond(AtWA)~1e%d' % (case['deg'], decade)
 
@@ -257,25 +306,27 @@ def check_chi2_resid(case):
         return None, 'skip:rank-deficient'
     sv = np.linalg.svd((A * s[:, None])[s > 0], compute_uv=False)
     condA = float(sv[0] / sv[-1])
-    try:
-        c = computechi2(b.copy(), s.copy(), A.copy())
-        got = float(c.chi2)
-        ac = np.asarray(c.acoeff, dtype=float)
-    except Exception as e:
-        return [('computechi2:exception:%s' % type(e).__name__, repr(e))], 'exc'
     # each weighted residual can be formed to delta = 8 eps cond |b sqrt(w)|_max at best, so a direct residual sum is good to
     # 2 sqrt(N chi2) delta + N delta^2 (cross term + floor); exact fits must give chi2 within the floor of zero
     delta = 8 * np.finfo(float).eps * condA * float(np.abs(b * s).max())
     allowed = 1e-9 * ref['chi2'] + 2.0 * np.sqrt(n * ref['chi2']) * delta + n * delta * delta
-    err = abs(got - ref['chi2'])
-    _LADDER_DEBUG['resid'] = err / allowed if allowed > 0 else float('inf')
-    bad = []
     trig = 'exact-fit' if case['eps'] == 0 else 'resid/b~%g' % case['eps']
-    if not err <= allowed:
-        bad.append(('computechi2:chi2:nearly-exact-fit', '%s: chi2 %r, sum of squared weighted residuals %r (allowed error %.3g)'
-                    % (trig, got, ref['chi2'], allowed)))
-    if not _close(ac, ref['acoeff'], 1e-9 * max(1.0, condA)):
-        bad.append(('computechi2:acoeff', 'got %s expected %s' % (ac.tolist(), ref['acoeff'])))
+    bad = []
+    worst = 0.0
+    for oname, order in (('canonical', ('chi2', 'acoeff')), ('covar-first', ('covar', 'var', 'chi2', 'acoeff'))):
+        suffix = '' if oname == 'canonical' else ':read-order=' + oname
+        try:
+            got, again = read_attrs(lambda: computechi2(b.copy(), s.copy(), A.copy()), order)
+        except Exception as e:
+            return [('computechi2:exception:%s' % type(e).__name__, repr(e))], 'exc'
+        err = abs(float(got['chi2']) - ref['chi2'])
+        worst = max(worst, err / allowed if allowed > 0 else float('inf'))
+        if not err <= allowed:
+            bad.append(('computechi2:chi2:nearly-exact-fit' + suffix, '%s: chi2 %r, sum of squared weighted residuals %r (allowed error %.3g)'
+                        % (trig, float(got['chi2']), ref['chi2'], allowed)))
+        if not _close(got['acoeff'], ref['acoeff'], 1e-9 * max(1.0, condA)):
+            bad.append(('computechi2:acoeff' + suffix, 'got %s expected %s' % (got['acoeff'].tolist(), ref['acoeff'])))
+    _LADDER_DEBUG['resid'] = worst
     return bad, 'ok:chi2:resid:%s' % trig
 
 
@@ -322,12 +373,21 @@ def check_pcomp(case):
     if isinstance(refs, str):
         return None, refs
     flags = 'std%d:cov%d' % (std, cov)
+    order = case.get('order')
+    osuf = ''
     try:
         p = pcomp(X, standardize=std, covariance=cov)
-        ev = np.asarray(p.eigenvalues, dtype=float)
-        co = np.asarray(p.coefficients, dtype=float)
-        vf = np.asarray(p.variance, dtype=float)
-        de = np.asarray(p.derived, dtype=float)
+        if order is None:
+            ev = np.asarray(p.eigenvalues, dtype=float)
+            co = np.asarray(p.coefficients, dtype=float)
+            vf = np.asarray(p.variance, dtype=float)
+            de = np.asarray(p.derived, dtype=float)
+        else:
+            # lazy attributes read in the given order on a fresh object (values copied when read), then read again
+            vals = {nm: np.array(getattr(p, nm), dtype=float, copy=True) for nm in order}
+            again = {nm: np.array(getattr(p, nm), dtype=float, copy=True) for nm in order}
+            ev, co, vf, de = vals['eigenvalues'], vals['coefficients'], vals['variance'], vals['derived']
+            osuf = ':read-order=%s-first' % order[0]
     except Exception as e:
         return [('pcomp:exception:%s' % type(e).__name__, repr(e))], 'exc'
     nv = X.shape[1]
@@ -360,6 +420,11 @@ def check_pcomp(case):
         if not any(de.shape == (X.shape[0], nv) and np.all(np.abs(de - D.dot(co)) <= 1e-9 * dscale) for D in datas):
             bad.append(('pcomp:derived' + (':standardize' if std else ''),
                         'derived[0] %s, data[0] x components %s' % (de[0].tolist() if de.ndim == 2 else de.shape, datas[0][0].dot(co).tolist())))
+    if order is not None:
+        bad = [(sg + osuf, m) for sg, m in bad if not sg.startswith('pcomp:derived:standardize')]
+        for nm in order:
+            if not np.array_equal(vals[nm], again[nm], equal_nan=True):
+                bad.append(('pcomp:%s:changes-on-second-read' % nm, 'order %s' % list(order)))
     if unit != 1.0:
         # metamorphic: eigenvalues(c x) = c^2 eigenvalues(x) for a covariance matrix of raw data, unchanged otherwise
         try:
@@ -891,6 +956,16 @@ def _do(acc, case, nontrivial):
 
 
 SVALS = (0.0, 0.5, 1.0, 2.0)
+# systems on which the six lazy attributes of computechi2 are read in all 720 orders
+ORDER_SYSTEMS = [
+    {'f': 'chi2', 'A': [[1, 0], [1, 1], [1, 2]], 's': [1.0, 0.5, 2.0], 'b': INTB[:3], 'orders': 'all'},
+    {'f': 'chi2', 'A': [[1, -1], [0, 2], [2, 1], [1, 1]], 's': [2.0, 0.0, 1.0, 0.5], 'b': INTB[:4], 'orders': 'all'},
+    {'f': 'chi2', 'A': [[2], [-1], [1]], 's': [1.0, 2.0, 0.5], 'b': INTB[:3], 'form': '1d', 'orders': 'all'},
+    {'f': 'chi2', 'vander': True, 's': [0.5 if i % 2 else 2.0 for i in range(20)], 'b': [INTB[(i * 5) % 6] for i in range(20)], 'orders': 'all'},
+    {'f': 'chi2ladder', 'deg': 2, 'n': 30, 'scol': None, 'spow': 0, 'wkind': 'gaps', 'bkind': 'bump', 'orders': 'all'},
+    {'f': 'chi2ladder', 'deg': 3, 'n': 60, 'scol': 0, 'spow': 10, 'wkind': 'alt', 'bkind': 'poly', 'orders': 'all'},
+]
+PCOMP_ATTRS = ('eigenvalues', 'coefficients', 'variance', 'derived')
 
 
 def tasks(tier):
@@ -917,6 +992,10 @@ def tasks(tier):
             t.append({'f': 'chi2ladder', 'deg': deg, 'n': n, 'T': T})
     for sysname in RESID_SYSTEMS:
         t.append({'f': 'chi2resid', 'system': sysname, 'T': T})
+    for k in range(len(ORDER_SYSTEMS)):
+        t.append({'f': 'chi2order', 'k': k, 'T': T})
+    for cov in (False, True):
+        t.append({'f': 'pcomporder', 'covariance': cov, 'T': T})
     # pcomp (the unit menu multiplies the same data matrices by a physical-unit factor)
     U_ALL = [1.0, 1e3, 1e-3, 1e-7, 1e-17]
     t.append({'f': 'pcomp', 'shape': [3, 2], 'alpha': [0, 1, 2], 'first': [], 'units': U_ALL, 'T': T})
@@ -1016,6 +1095,16 @@ def run_task(task):
             for wk in ('unit', 'alt', 'gaps'):
                 for bk in ('poly', 'bump', 'unit'):
                     _do(acc, {'f': 'chi2ladder', 'deg': deg, 'n': n, 'scol': scol, 'spow': spow, 'wkind': wk, 'bkind': bk}, True)
+    elif f == 'chi2order':
+        _do(acc, dict(ORDER_SYSTEMS[task['k']]), True)
+    elif f == 'pcomporder':
+        for shape, alpha in (((3, 2), (0, 1, 2)), ((4, 3), (0, 1))) if T else (((3, 2), (0, 1)), ((4, 2), (0, 1))):
+            r, c = shape
+            for flat in itertools.product(alpha, repeat=r * c):
+                X = [list(flat[i * c:(i + 1) * c]) for i in range(r)]
+                for std in (False, True):
+                    for order in itertools.permutations(PCOMP_ATTRS):
+                        _do(acc, {'f': 'pcomp', 'x': X, 'standardize': std, 'covariance': task['covariance'], 'order': list(order)}, True)
     elif f == 'chi2resid':
         for wk in ('unit', 'alt', 'gaps'):
             for eps in RESID_EPS:
